@@ -14,14 +14,14 @@ Rec == ndJsonDeserialize(IOEnv.TRACE)
 VARIABLES i, bad, odd
 vars == <<i, bad, odd>>
 
-\* kind "big": [kind, src, desc |-> [n, image_bytes], result |-> summary] - see BigAllowed in Arc3ds.tla
+\* kind "big": [kind, src, desc |-> [n, image_bytes, strings, labels, head], result |-> summary] - see BigAllowed in Arc3ds.tla
 KindOK(ev) ==
-  IF ev.kind = "big" THEN ev.desc.n \in 0..1048576
+  IF ev.kind = "big" THEN BigImageOK(ev.desc)
   ELSE IF ev.kind = "ok" THEN Conforms(ev.content)
-  ELSE /\ ev.kind \in {"nocount", "noinfo", "noname", "end", "start", "words", "wrapsum"}
+  ELSE /\ ev.kind \in {"nocount", "noinfo", "noname", "nameptr", "end", "start", "words", "wrapsum"}
        /\ IsErrorLayout(ev.content) /\ ~EmptyRangePastEnd(ev.content)
        /\ Extract(ev.content).err = (CASE ev.kind = "nocount" -> "NoCount" [] ev.kind = "noinfo" -> "NoInfo"
-                                        [] ev.kind = "noname" -> "MissingName" [] OTHER -> "RangeOutside")
+                                        [] ev.kind \in {"noname", "nameptr"} -> "MissingName" [] OTHER -> "RangeOutside")
 
 Init == i = 1 /\ bad = <<>> /\ odd = <<>>
 Next == /\ i <= Len(Rec)
